@@ -221,7 +221,12 @@ pub fn key_table(mode: &str, tap: bool, legacy_like: bool) -> KeyTable {
         if mode == "string" {
             strs.push(format!("K{}", i));
             kinds.push('c');
-        } else if tap {
+        } else if tap && mode == "realmix" && i >= 14 {
+            // a key kind the context must refuse
+            let pk = bitcoin::PublicKey { inner: real_pk(i), compressed: false };
+            strs.push(format!("{}", pk));
+            kinds.push('u');
+        } else if tap || (mode == "realmix" && legacy_like && (i == 12 || i == 13)) {
             strs.push(format!("{}", real_pk(i).x_only_public_key().0));
             kinds.push('x');
         } else if legacy_like && i >= 14 {
@@ -821,7 +826,9 @@ fn compile_desc<Pk: FromStrKey + EncLen>(
 
 fn all_apis<Pk: FromStrKey + EncLen>(out: &mut String, id: &str, p: &P, mode: &str) {
     let kt_l = key_table(mode, false, true);
-    let kt_s = key_table(mode, false, false);
+    // mode "realmix": the segwit contexts also see the two uncompressed keys (14, 15), which they
+    // must refuse -- an Ok output containing one is rejected by the validator's key-kind rule
+    let kt_s = key_table(mode, false, mode == "realmix");
     let kt_t = key_table(mode, true, false);
     compile_ms::<Pk, BareCtx>(out, id, "bare", p, &kt_l);
     compile_ms::<Pk, Legacy>(out, id, "legacy", p, &kt_l);
@@ -1134,7 +1141,13 @@ pub fn run(args: &[String]) {
     let mut hist: BTreeMap<String, u64> = BTreeMap::new();
     for i in 0..n {
         let (shape, p) = gen_policy(seed, i, max_leaves);
-        let mode = if i % 2 == 0 { "string" } else { "real" };
+        let mode = if i % 2 == 0 {
+            "string"
+        } else if i % 16 == 15 {
+            "realmix"
+        } else {
+            "real"
+        };
         let id = format!("s{}-{}", seed, i);
         let mut out = String::new();
         run_case(&mut out, &id, &shape, &p, mode);
